@@ -59,75 +59,100 @@ Proof.
   - destruct H as (-> & Hle & H). specialize (IH _ _ H). lia.
 Qed.
 
+(** the split point always lies strictly inside a chunk of at least two bytes *)
+Lemma clamp_inside start end_ m : start + 2 <= end_ -> start < slicer_clamp start end_ m < end_.
+Proof.
+  intros H. unfold slicer_clamp.
+  destruct (m <=? start) eqn:E1; [lia|]. destruct (end_ <=? m) eqn:E2; lia.
+Qed.
+
+(** generic form: [b] bounds the length of every non-empty base-case interval inside [lo, hi) *)
+Lemma slicer_chunk_gen lo hi b avg var
+  (Hb : forall s e, lo <= s -> s < e -> e <= hi -> slicer_base s e avg var = true -> e - s <= b)
+  (fuel : nat) : forall start end_ draws,
+  lo <= start -> end_ <= hi ->
+  start <= end_ -> (Z.to_nat (end_ - start) < fuel)%nat ->
+  exists os ds, slicer_chunk fuel avg var start end_ draws = CROk os ds /\
+                covers os start end_ /\
+                (start < end_ -> pieces_within b os).
+Proof.
+  induction fuel as [|f IH]; intros start end_ draws Hlo Hhi Hle Hfuel; [lia|].
+  cbn [slicer_chunk].
+  destruct (slicer_base start end_ avg var) eqn:Hbase.
+  - exists [start; end_], draws. split; [reflexivity|]. split; [simpl; lia|].
+    intros Hlt. simpl. split; [|exact I]. split; [lia|]. apply Hb; assumption.
+  - assert (Hsize : start + 2 <= end_) by (unfold slicer_base in Hbase; lia).
+    (* whatever the raw split point is, the clamped one is strictly inside *)
+    assert (Hgen : forall m d1,
+              exists os ds,
+                match slicer_chunk f avg var start (slicer_clamp start end_ m) d1 with
+                | CROk l d2 => match slicer_chunk f avg var (slicer_clamp start end_ m) end_ d2 with
+                               | CROk r d3 => CROk (l ++ r) d3
+                               | e => e
+                               end
+                | e => e
+                end = CROk os ds /\ covers os start end_ /\ (start < end_ -> pieces_within b os)).
+    { intros m d1. pose proof (clamp_inside start end_ m Hsize) as Hm.
+      set (mid := slicer_clamp start end_ m) in *.
+      destruct (IH start mid d1 ltac:(lia) ltac:(lia) ltac:(lia) ltac:(lia)) as (l & d2 & El & Cl & Pl). rewrite El.
+      destruct (IH mid end_ d2 ltac:(lia) ltac:(lia) ltac:(lia) ltac:(lia)) as (r & d3 & Er & Cr & Pr). rewrite Er.
+      exists (l ++ r), d3. split; [reflexivity|]. split; [eapply covers_app; eassumption|].
+      intros _. apply pieces_within_app; [apply Pl|apply Pr]; lia. }
+    destruct (slicer_rand_guard var) eqn:Hg.
+    + assert (Hn : (slicer_rand_n var <=? 0) = false).
+      { unfold slicer_rand_guard, slicer_rand_n in *.
+        assert (Hh : godiv 9223372036854775807 2 = 4611686018427387903) by (vm_compute; reflexivity).
+        rewrite Hh in Hg. rewrite wrap64_id by (unfold two63; lia). lia. }
+      rewrite Hn. destruct draws as [|d ds]; cbn [negb]; apply Hgen.
+    + cbn [negb]. apply Hgen.
+Qed.
+
+(** For EVERY average_size and size_variation (any int64 values), every size and every sequence of
+    draws: the recursion terminates within size+1 levels, never calls rand.Intn with a non-positive
+    argument, and the offsets partition [start, end) into consecutive NON-EMPTY pieces. *)
+Theorem slicer_chunk_total (fuel : nat) : forall avg var start end_ draws,
+  start <= end_ -> (Z.to_nat (end_ - start) < fuel)%nat ->
+  exists os ds, slicer_chunk fuel avg var start end_ draws = CROk os ds /\
+                covers os start end_ /\
+                (start < end_ -> pieces_within (end_ - start) os).
+Proof.
+  intros avg var start end_ draws Hle Hf.
+  apply (slicer_chunk_gen start end_ (end_ - start) avg var); try lia.
+Qed.
+
+(** inside the documented range 0 <= size_variation < average_size (an int) every piece is at most
+    average + variation bytes *)
 Theorem slicer_chunk_spec (fuel : nat) : forall avg var start end_ draws,
-  0 <= var < avg -> start <= end_ -> (Z.to_nat (end_ - start) < fuel)%nat ->
+  0 <= var < avg -> avg < two63 -> 0 <= start -> end_ < two63 -> start <= end_ -> (Z.to_nat (end_ - start) < fuel)%nat ->
   exists os ds, slicer_chunk fuel avg var start end_ draws = CROk os ds /\
                 covers os start end_ /\
                 (start < end_ -> pieces_within (avg + var) os).
 Proof.
-  induction fuel as [|f IH]; intros avg var start end_ draws Hv Hle Hfuel; [lia|].
-  cbn [slicer_chunk].
-  unfold slicer_base, slicer_mid, slicer_rand_guard, slicer_rand_n, slicer_mid_adj.
-  destruct ((end_ - start) - avg <=? var) eqn:Hbase.
-  - exists [start; end_], draws. split; [reflexivity|]. split; [simpl; lia|].
-    intros Hlt. simpl. lia.
-  - assert (Hsize : end_ - start > avg + var) by lia.
-    rewrite godiv_div by lia.
-    set (half := (end_ - start) / 2).
-    assert (Hhalf : 2 * half <= end_ - start < 2 * half + 2).
-    { unfold half. pose proof (Z.div_mod (end_ - start) 2 ltac:(lia)).
-      pose proof (Z.mod_pos_bound (end_ - start) 2 ltac:(lia)). lia. }
-    (* the split point lies strictly inside (start, end) *)
-    assert (Hmid : forall r, 0 <= r < 2 * var \/ (var = 0 /\ r = var) ->
-                    start < start + half + (r - var) < end_) by (intros r Hr; lia).
-    destruct (0 <? var) eqn:Hvar.
-    + replace (var * 2 <=? 0) with false by lia.
-      set (r := match draws with d :: _ => d mod (var * 2) | [] => 0 end).
-      assert (Hr : 0 <= r < 2 * var).
-      { unfold r. destruct draws as [|d ds]; [lia|].
-        pose proof (Z.mod_pos_bound d (var * 2) ltac:(lia)). lia. }
-      set (mid := start + half + (r - var)).
-      specialize (Hmid r (or_introl Hr)). fold mid in Hmid.
-      assert (Hdr : (if true then match draws with
-                     | d :: ds => (start + half + (d mod (var * 2) - var), ds, true)
-                     | [] => (start + half + (0 - var), [], true) end
-                     else (start + half, draws, true)) =
-                    (mid, match draws with _ :: ds => ds | [] => [] end, true)).
-      { unfold mid, r. destruct draws; reflexivity. }
-      destruct draws as [|d ds]; cbn [negb].
-      * destruct (IH avg var start mid [] Hv ltac:(lia) ltac:(lia)) as (l & d2 & El & Cl & Pl).
-        unfold mid, r in El. rewrite El.
-        destruct (IH avg var mid end_ d2 Hv ltac:(lia) ltac:(lia)) as (rr & d3 & Er & Cr & Pr).
-        unfold mid, r in Er. rewrite Er.
-        exists (l ++ rr), d3. split; [reflexivity|]. split; [eapply covers_app; eassumption|].
-        intros _. apply pieces_within_app; [apply Pl|apply Pr]; lia.
-      * destruct (IH avg var start mid ds Hv ltac:(lia) ltac:(lia)) as (l & d2 & El & Cl & Pl).
-        unfold mid, r in El. rewrite El.
-        destruct (IH avg var mid end_ d2 Hv ltac:(lia) ltac:(lia)) as (rr & d3 & Er & Cr & Pr).
-        unfold mid, r in Er. rewrite Er.
-        exists (l ++ rr), d3. split; [reflexivity|]. split; [eapply covers_app; eassumption|].
-        intros _. apply pieces_within_app; [apply Pl|apply Pr]; lia.
-    + assert (var = 0) by lia. subst var.
-      set (mid := start + half).
-      assert (Hm : start < mid < end_) by (unfold mid; lia).
-      cbn [negb].
-      destruct (IH avg 0 start mid draws Hv ltac:(lia) ltac:(lia)) as (l & d2 & El & Cl & Pl).
-      rewrite El.
-      destruct (IH avg 0 mid end_ d2 Hv ltac:(lia) ltac:(lia)) as (rr & d3 & Er & Cr & Pr).
-      rewrite Er.
-      exists (l ++ rr), d3. split; [reflexivity|]. split; [eapply covers_app; eassumption|].
-      intros _. apply pieces_within_app; [apply Pl|apply Pr]; lia.
+  intros avg var start end_ draws Hv Ha Hs He Hle Hf.
+  apply (slicer_chunk_gen start end_ (avg + var) avg var); try lia.
+  intros s e H1 H2 H3 Hbase. unfold slicer_base in Hbase.
+  rewrite wrap64_id in Hbase by (unfold two63 in *; lia). lia.
 Qed.
 
-(** Outside the guard the recursion need not terminate: with average_size <= size_variation (for
-    instance the defaults 0/0) a one-byte input already recurses for ever (finding F5a). *)
-Theorem slicer_chunk_diverges_default (fuel : nat) (draws : list Z) :
-  slicer_chunk fuel 0 0 0 1 draws = CRFuel.
+(** Regression witness for the repaired defect F5a: without the "fewer than two bytes" base case
+    and the clamp, the default attributes 0/0 recurse for ever on a one-byte chunk. The pinned
+    recursion is spelled out here (the current one is [slicer_chunk]). *)
+Fixpoint slicer_chunk_pinned (fuel : nat) (avg var : Z) (start end_ : Z) : option (list Z) :=
+  match fuel with
+  | O => None
+  | S f =>
+    if (end_ - start) - avg <=? var then Some [start; end_]
+    else
+      let mid := start + godiv (end_ - start) 2 in
+      match slicer_chunk_pinned f avg var start mid, slicer_chunk_pinned f avg var mid end_ with
+      | Some l, Some r => Some (l ++ r)
+      | _, _ => None
+      end
+  end.
+
+Theorem slicer_chunk_diverges_pinned (fuel : nat) : slicer_chunk_pinned fuel 0 0 0 1 = None.
 Proof.
-  revert draws. induction fuel as [|f IH]; intros draws; [reflexivity|].
-  cbn [slicer_chunk]. unfold slicer_base, slicer_mid, slicer_rand_guard. cbn.
-  change (godiv 1 2) with 0. cbn.
-  destruct f as [|f']; [reflexivity|].
-  change (slicer_chunk (S f') 0 0 0 0 draws) with (CROk [0; 0] draws).
-  cbv iota. rewrite IH. reflexivity.
+  induction fuel as [|f IH]; [reflexivity|].
+  cbn [slicer_chunk_pinned]. change (1 - 0 - 0 <=? 0) with false. cbv iota.
+  change (0 + godiv (1 - 0) 2) with 0. rewrite IH. destruct (slicer_chunk_pinned f 0 0 0 0); reflexivity.
 Qed.
